@@ -62,3 +62,42 @@ class ValidateArrayShapes(object):
             if eng.feasible(s_bad):
                 for s3, r in eng.instantiate(exc_mixed, s_bad, [Sym("shape", sh(s_bad, z3.IntVal(0))), Sym("shape", sh(s_bad, k1)), lineno], {}):
                     yield s3, (r if isinstance(r, Raised) else Raised(r))
+
+
+def clamp(v, lo, hi):
+    # order of the two assignments in insure_fuzzy: first > max, then < min
+    t = z3.If(v > hi, hi, v)
+    return z3.If(t < lo, lo, t)
+
+
+@contract("mpilot/utils.py::insure_fuzzy")
+class InsureFuzzy(object):
+    """modifies arr (in place); returns arr itself; kind, dtype, shape, miss unchanged;
+    at every valid cell val' = clamp(val, fuzzy_min, fuzzy_max); payload under missing cells unspecified."""
+
+    def apply(self, eng, st, f, args, kwargs):
+        arr, lo, hi = args
+        if not (is_num(lo) and is_num(hi)):
+            raise Unsupported("insure_fuzzy bounds")
+        s = eng.arr_state(st, arr)
+        if s.sel is not None:
+            raise Unsupported("insure_fuzzy on a selection")
+        lo_t, hi_t = num_term(lo), num_term(hi)
+        junk = eng.fresh_valfun("clamped_payload")
+        miss = s.miss
+        new = s.clone(val=lambda c: z3.If(miss(c), junk(c), clamp(s.val(c), lo_t, hi_t)))
+        eng.mutate(st, arr, new)
+        yield st, arr
+
+
+@contract("mpilot/utils.py::make_masked")
+class MakeMasked(object):
+    """returns arr itself when it is a masked array, else a masked view without missing cells. Pure."""
+
+    def apply(self, eng, st, f, args, kwargs):
+        (arr,) = args
+        s = eng.arr_state(st, arr)
+        if s.kind == "MA":
+            yield st, arr
+        else:
+            yield st, st.alloc(ArrState("MA", s.dtype, s.shape, s.val, lambda c: z3.BoolVal(False)))
